@@ -14,7 +14,12 @@ use tokio::io::AsyncReadExt;
 use tokio::net::TcpStream;
 use tokio::select;
 use tokio::sync::mpsc::{Receiver, Sender};
+#[cfg(not(saito_verif))]
 use tokio::sync::{Mutex, RwLock};
+#[cfg(saito_verif)]
+use tokio::sync::Mutex;
+#[cfg(saito_verif)]
+use saito_core::core::util::verif::RwLock;
 use tokio::task::JoinHandle;
 use tokio::time::Instant;
 use tokio_tungstenite::{connect_async, tungstenite, MaybeTlsStream, WebSocketStream};
